@@ -46,6 +46,7 @@ type c28Cmd struct {
 	RulesFormat  string `json:"rules_format,omitempty"`
 	Reload       bool   `json:"reload,omitempty"`
 	Fresh        bool   `json:"fresh,omitempty"`
+	Dataset      string `json:"dataset,omitempty"` // drainstatus: which dataset to account for
 }
 
 type c28PanicRec struct {
@@ -66,6 +67,10 @@ type c28Reply struct {
 	Stacks     string        `json:"stacks,omitempty"`
 	// requests the fake upstream is serving right now (stacks op)
 	UpstreamInFlight int `json:"upstream_in_flight,omitempty"`
+	// drainstatus
+	Stopped   bool `json:"stopped,omitempty"`   // routers and transmission have returned from Stop()
+	Delivered int  `json:"delivered,omitempty"` // events the fake upstream received for the dataset
+	Errors    int  `json:"errors,omitempty"`    // error-level log lines of the transmission naming the dataset
 	// start
 	HTTPAddr string `json:"http_addr,omitempty"`
 	PeerAddr string `json:"peer_addr,omitempty"`
@@ -89,10 +94,17 @@ func TestC28Worker(t *testing.T) {
 		sut    *authSUT
 		pmu    sync.Mutex
 		caught []c28PanicRec
+		dsErrs = map[string]int{}
+		drain  chan struct{} // closed when the shutdown started by "drain" has returned
 	)
 	onError := func(ln authLogLine) {
 		// everything refinery logs at error level goes to our stderr (context for a later death)
 		fmt.Fprintf(os.Stderr, "C28LOG error: %.300s\n", ln.Msg)
+		if ds, _ := ln.Fields["dataset"].(string); strings.HasPrefix(ds, "huge") {
+			pmu.Lock()
+			dsErrs[ds]++
+			pmu.Unlock()
+		}
 		if m, _ := ln.Fields["error.msg"].(string); m == "caught panic" {
 			rec := c28PanicRec{Msg: fmt.Sprint(ln.Fields["error.err"])}
 			rec.Stack, _ = ln.Fields["error.stack_trace"].(string)
@@ -136,6 +148,45 @@ func TestC28Worker(t *testing.T) {
 			caught = nil
 			pmu.Unlock()
 			enc.Encode(c28Reply{OK: true, HTTPAddr: s.HTTPAddr, PeerAddr: s.PeerAddr, GRPCAddr: s.GRPCAddr})
+		case "drain":
+			// shut the SUT down the way the process does on exit: stop the routers,
+			// then the transmission (which must flush and return). Runs beside the
+			// command loop so that the parent can watch it.
+			if sut == nil {
+				enc.Encode(c28Reply{Err: "no router running"})
+				continue
+			}
+			if drain == nil {
+				drain = make(chan struct{})
+				go func(s *authSUT, done chan struct{}) {
+					fmt.Fprintf(os.Stderr, "C28STAGE drain (Router.Stop, DirectTransmission.Stop)\n")
+					s.stopComponents()
+					close(done)
+				}(sut, drain)
+			}
+			enc.Encode(c28Reply{OK: true})
+		case "drainstatus":
+			r := c28Reply{OK: true}
+			if drain != nil && sut != nil {
+				select {
+				case <-drain:
+					r.Stopped = true
+				default:
+				}
+				sut.Honey.mu.Lock()
+				r.Delivered = sut.Honey.counts[cmd.Dataset]
+				sut.Honey.mu.Unlock()
+				pmu.Lock()
+				r.Errors = dsErrs[cmd.Dataset]
+				pmu.Unlock()
+				if r.Stopped {
+					sut.finish()
+					sut, drain = nil, nil
+				}
+			} else {
+				r.Err = "no drain in progress"
+			}
+			enc.Encode(r)
 		case "stacks":
 			buf := make([]byte, 4<<20)
 			buf = buf[:runtime.Stack(buf, true)]
@@ -777,7 +828,7 @@ func c28BusyFrame(dump string) (frame, block string) {
 		if !strings.HasPrefix(first, "goroutine ") || !(strings.Contains(first, "[running") || strings.Contains(first, "[runnable")) {
 			continue
 		}
-		if !strings.Contains(blk, "github.com/honeycombio/refinery/route.") && !strings.Contains(blk, "honeycombio/husky") {
+		if !strings.Contains(blk, "github.com/honeycombio/refinery/route.") && !strings.Contains(blk, "honeycombio/husky") && !strings.Contains(blk, "github.com/honeycombio/refinery/transmit.") {
 			continue
 		}
 		if strings.Contains(blk, "TestC28Worker") {
